@@ -33,6 +33,8 @@ pub fn battery(n: usize) -> Vec<Act> {
 }
 
 pub struct FaultOutcome {
+    /// layout key of the buffer right after the deviation (None if consumed / not observable)
+    pub post_key: Option<Vec<u8>>,
     pub fired: bool,
     pub panicked: bool,
     pub problems: Vec<(Problem, &'static str)>,
@@ -221,9 +223,10 @@ pub fn fault_case<const N: usize>(prop: &str, recipe: &Recipe, act: &Act, fault:
         model::show_tags(&rec.post_tags),
         rec.events.iter().map(|e| e.show()).collect::<Vec<_>>().join(",")
     );
+    let post_key = if !rec.consumed && rec.post.views_agree().is_ok() { Some(key_layout(&rec.post)) } else { None };
     if fault.is_some() && !rec.fired {
         drop(final_drop(sut, keep));
-        return FaultOutcome { fired: false, panicked: rec.panicked, problems, summary };
+        return FaultOutcome { post_key, fired: false, panicked: rec.panicked, problems, summary };
     }
     if prop == "C10" {
         // contents must be drawn from the original contents
@@ -232,7 +235,7 @@ pub fn fault_case<const N: usize>(prop: &str, recipe: &Recipe, act: &Act, fault:
         }
     }
     aftermath(sut, keep, &rec, prop != "C06", &mut problems);
-    FaultOutcome { fired: true, panicked: rec.panicked, problems, summary }
+    FaultOutcome { post_key, fired: true, panicked: rec.panicked, problems, summary }
 }
 
 /// (action, fault kind) pairs per property, for a state of length `len`.
@@ -337,6 +340,7 @@ pub fn fault_check<const N: usize>(prop: &str, o: &Opts, rep: &mut Report) {
             if kinds.is_empty() {
                 // C10: the deviation is the leak itself
                 let out = fault_case::<N>(prop, &st.recipe, &act, None);
+                member(rep, &sp, &out);
                 tally(rep, &st.recipe, &act, None, &out);
                 continue;
             }
@@ -347,6 +351,7 @@ pub fn fault_check<const N: usize>(prop: &str, o: &Opts, rep: &mut Report) {
                 let k_max = base.rec.counts[kind as usize];
                 for k in 1..=k_max {
                     let out = fault_case::<N>(prop, &st.recipe, &act, Some((kind, k)));
+                    member(rep, &sp, &out);
                     tally(rep, &st.recipe, &act, Some((kind, k)), &out);
                 }
             }
@@ -356,6 +361,20 @@ pub fn fault_check<const N: usize>(prop: &str, o: &Opts, rep: &mut Report) {
     // constructors that run user code / destructors
     if o.shard.0 == 0 {
         ctor_faults::<N>(prop, rep);
+    }
+
+    /// Is the state right after the deviation one of the states whose whole future the fault-free
+    /// exploration (C01/C03/C04 fixpoint) covers?  If so, "arbitrary further operations" are covered by
+    /// induction, not only by the follow-up battery.  (A counter, never a verdict.)
+    fn member(rep: &mut Report, sp: &Space, out: &FaultOutcome) {
+        if !out.fired && out.post_key.is_none() {
+            return;
+        }
+        match &out.post_key {
+            Some(k) if sp.index.contains_key(k) => rep.count("post_deviation_state_is_in_the_explored_fixpoint", 1),
+            Some(_) => rep.count("post_deviation_state_outside_the_explored_fixpoint", 1),
+            None => rep.count("post_deviation_state_not_observable_or_consumed", 1),
+        }
     }
 
     fn tally(rep: &mut Report, recipe: &Recipe, act: &Act, fault: Option<(FaultKind, u32)>, out: &FaultOutcome) {
